@@ -72,11 +72,12 @@ CHECKS = {
         "text": "Proof, for all inputs (full 32/64-bit domains, no bound): RepliconTick ordering/arithmetic and every ConfirmHistory operation "
                 "(new, contains, contains_any, confirm, set, set_last_tick) against the plain-set-of-confirmed-ticks oracle, as loop-free "
                 "Kani harnesses over kani::any() on the real crate; representation invariant assumed on entry and asserted on exit "
-                "(induction over operation sequences).",
+                "(induction over operation sequences); ServerMutateTicks::confirm/contains and TickMessages unbounded with Verus on the verbatim code, "
+                "default/clear/mask completely with Kani on the real 64-slot ring.",
         "design_ref": "DESIGN.md §4 U1-U3, §5 C12",
-        "note": "Trusted: Kani/CBMC/CaDiCaL. Not covered: the Bevy systems calling these (confirm_tick, apply_mutate_messages) and the server-side "
+        "note": "Trusted: Kani/CBMC/CaDiCaL, Verus/Z3, vstd's VecDeque specification. ServerMutateTicks::contains_any is outside both verifiers and is covered only by a BOUNDED native run on the real code (labelled bounded in the evidence, not counted). Not covered: the Bevy systems calling these (confirm_tick, apply_mutate_messages) and the server-side "
                 "message count stamping; the end-to-end 'notification exactly once' clause is decided only at function level.",
-        "technique": "contract-based deductive verification: Kani/CBMC function contracts (assume-pre/assert-post, full-domain symbolic inputs) on the real code",
+        "technique": "contract-based deductive verification: Kani/CBMC function contracts (assume-pre/assert-post, full-domain symbolic inputs; attribute form with proof_for_contract/stub_verified in the thorough tier) and Verus contracts on the verbatim code",
     },
 }
 
